@@ -70,8 +70,12 @@ def gen_case(rng, tier):
     for _ in range(8 if tier == "quick" else 14):
         sel, hdr = gen_select_list(rng, pool, tid)
         q = "SELECT %s FROM t%s" % (sel, (" " + alias) if alias else "")
-        if rng.random() < 0.75:
-            q += " WHERE " + sc.gen_cond(rng, pool, rng.choice([0, 1, 2, 3, 4, 4]))
+        # malformed stream: one query in ten gets type-confused operands / bare values
+        confuse = 0.5 if rng.random() < 0.1 else 0.0
+        if confuse and rng.random() < 0.3:
+            q += " WHERE " + rng.choice(["1", "'a'", "0", "true", "false", "''"])     # a bare value as condition
+        elif rng.random() < 0.75:
+            q += " WHERE " + sc.gen_cond(rng, pool, rng.choice([0, 1, 2, 3, 4, 4]), confuse=confuse)
         if hdr and rng.random() < 0.7:
             keys = []
             for _ in range(rng.randrange(1, 4)):
@@ -86,7 +90,7 @@ def gen_case(rng, tier):
 
 
 def generate(rng, tier):
-    n = 90 if tier == "quick" else 500
+    n = 160 if tier == "quick" else 900
     return [gen_case(rng, tier) for _ in range(n)]
 
 
